@@ -92,3 +92,128 @@ Theorem C16_lookup_absent_below_first : forall img k,
     lookup img k = None /\ lookup_trace img k = TNoBranch.
 Proof. exact ReadPath_proofs.lookup_absent_below_first. Qed.
 Print Assumptions C16_lookup_absent_below_first.
+
+(* ------------------------------------------------------------------------------------------ *)
+(* the page formats (NodeCodec.v: encoders written from LeafBuilder, BranchNodeBuilder,
+   overflow.rs::chunk / encode_cell and Meta::encode_to): what the builders write, the decoder
+   of Image.v reads back - for every input within the size constraints the builders assert, and
+   whatever the regions hold that the builders leave undefined (the page pool does not zero)   *)
+From Nomt Require Import NodeCodec NodeCodec_proofs.
+
+Theorem C16_decode_encode_manifest : forall m, manifest_fits m = true ->
+    decode_manifest (encode_manifest m) = Image.Ok m.
+Proof. exact NodeCodec_proofs.decode_encode_manifest. Qed.
+Print Assumptions C16_decode_encode_manifest.
+
+Theorem C16_decode_encode_manifest_gen : forall tail m, manifest_fits m = true ->
+    decode_manifest (encode_manifest_gen tail m) = Image.Ok m.
+Proof. exact NodeCodec_proofs.decode_encode_manifest_gen. Qed.
+Print Assumptions C16_decode_encode_manifest_gen.
+
+(* leaves whose values are all in the leaf *)
+Theorem C16_decode_encode_leaf : forall rd lpn sep es,
+    leaf_fits es = true -> forallb inline_ok es = true ->
+    decode_leaf rd lpn sep (encode_leaf es) = Image.Ok (mkLeaf lpn sep es).
+Proof. exact NodeCodec_proofs.decode_encode_leaf. Qed.
+Print Assumptions C16_decode_encode_leaf.
+
+(* leaves with overflow cells, any content of the gap between cell pointers and cells *)
+Theorem C16_decode_encode_leaf_gen : forall rd lpn sep gap es,
+    leaf_fits es = true -> Forall (entry_decodes rd lpn) es ->
+    length gap = N.to_nat (leaf_gap es) ->
+    decode_leaf rd lpn sep (encode_leaf_gen gap es) = Image.Ok (mkLeaf lpn sep es).
+Proof. exact NodeCodec_proofs.decode_encode_leaf_gen. Qed.
+Print Assumptions C16_decode_encode_leaf_gen.
+
+(* an overflow cell and the chain of overflow pages it refers to *)
+Theorem C16_decode_encode_overflow : forall rd lpn o pages rest,
+    ovf_cell_fits o = true ->
+    Forall (page_served rd) pages ->
+    length pages = N.to_nat (total_needed_pages (o_size o)) ->
+    chain_rest (o_cell_pages o) pages = Some rest ->
+    decode_overflow rd lpn (ovf_cell o)
+    = Image.Ok (concat (map op_bytes pages), Image.lenN (concat (map op_bytes pages)),
+                mkOverflow (o_size o) (o_hash o) (o_cell_pages o) (map op_pn pages ++ rest) true).
+Proof. exact NodeCodec_proofs.decode_encode_overflow. Qed.
+Print Assumptions C16_decode_encode_overflow.
+
+(* branches, bit-packed separator suffixes and prefix compression included *)
+Theorem C16_decode_encode_branch : forall pn bbn pc plen seps pns,
+    branch_ok bbn pc plen seps pns = true ->
+    decode_branch pn (encode_branch bbn pc plen seps pns)
+    = Image.Ok (mkBranch pn bbn pc plen (map fst seps) pns).
+Proof. exact NodeCodec_proofs.decode_encode_branch. Qed.
+Print Assumptions C16_decode_encode_branch.
+
+Theorem C16_decode_encode_branch_gen : forall pn padbits gap bbn pc plen seps pns,
+    branch_ok bbn pc plen seps pns = true ->
+    (exists k, length (branch_bitvec pc plen seps ++ padbits) = 8 * k /\ length padbits < 8)%nat ->
+    length gap = N.to_nat (branch_gap pc plen seps) ->
+    decode_branch pn (encode_branch_gen padbits gap bbn pc plen seps pns)
+    = Image.Ok (mkBranch pn bbn pc plen (map fst seps) pns).
+Proof. exact NodeCodec_proofs.decode_encode_branch_gen. Qed.
+Print Assumptions C16_decode_encode_branch_gen.
+
+Theorem C16_encode_leaf_length : forall es,
+    leaf_fits es = true -> Forall (fun e => length (e_key e) = 256%nat) es ->
+    length (encode_leaf es) = 4096%nat.
+Proof. exact NodeCodec_proofs.encode_leaf_length. Qed.
+Print Assumptions C16_encode_leaf_length.
+
+Theorem C16_encode_branch_length : forall bbn pc plen seps pns,
+    branch_ok bbn pc plen seps pns = true ->
+    length (encode_branch bbn pc plen seps pns) = 4096%nat.
+Proof. exact NodeCodec_proofs.encode_branch_length. Qed.
+Print Assumptions C16_encode_branch_length.
+
+Theorem C16_encode_overflow_page_length : forall pns bytes, ovf_page_fits pns bytes = true ->
+    length (encode_overflow_page pns bytes) = 4096%nat.
+Proof. exact NodeCodec_proofs.encode_overflow_page_length. Qed.
+Print Assumptions C16_encode_overflow_page_length.
+
+Theorem C16_encode_manifest_length : forall m, manifest_fits m = true ->
+    length (encode_manifest m) = 4096%nat.
+Proof. exact NodeCodec_proofs.encode_manifest_length. Qed.
+Print Assumptions C16_encode_manifest_length.
+
+(* a value cut into overflow pages the way overflow.rs::chunk does it (NodeCodec.chunk), read back
+   through the cell: the value itself, for every size up to MAX_OVERFLOW_VALUE_SIZE - the page
+   count of total_needed_pages is enough and the reading order is the allocation order *)
+Theorem C16_decode_encode_overflow_value : forall rd lpn value hash all,
+    (1 <= Image.lenN value)%N -> (Image.lenN value <= MAX_OVERFLOW_VALUE_SIZE)%N ->
+    length all = N.to_nat (Image.total_needed_pages (Image.lenN value)) ->
+    Forall (fun x => (x < 2 ^ 32)%N) all -> length hash = 32%nat ->
+    (forall p, In p (chunk value all) ->
+               exists tail, rd (op_pn p) = Some (encode_overflow_page_gen tail (op_pns p) (op_bytes p))
+                            /\ length (encode_overflow_page_gen tail (op_pns p) (op_bytes p)) = 4096%nat) ->
+    decode_overflow rd lpn (ovf_cell (mkOverflow (Image.lenN value) hash (firstn 15 all) all true))
+    = Image.Ok (value, Image.lenN value, mkOverflow (Image.lenN value) hash (firstn 15 all) all true).
+Proof. exact NodeCodec_proofs.decode_encode_overflow_value. Qed.
+Print Assumptions C16_decode_encode_overflow_value.
+
+(* the re-encoding check of the img engine (command imgreencode): the segment description that is
+   compared with the file is the encoder's page, and a comparison without differences means that the
+   file's page has 4096 bytes and agrees with the encoder's page on every defined bit *)
+Theorem C16_leaf_segs_bytes : forall es, seg_bytes (leaf_segs es) = encode_leaf es.
+Proof. exact NodeCodec_proofs.leaf_segs_bytes. Qed.
+Print Assumptions C16_leaf_segs_bytes.
+
+Theorem C16_branch_segs_bytes : forall bbn pc plen seps pns,
+    seg_bytes (branch_segs bbn pc plen seps pns) = encode_branch bbn pc plen seps pns.
+Proof. exact NodeCodec_proofs.branch_segs_bytes. Qed.
+Print Assumptions C16_branch_segs_bytes.
+
+Theorem C16_ovf_segs_bytes : forall pns bytes,
+    seg_bytes (ovf_segs pns bytes) = encode_overflow_page pns bytes.
+Proof. exact NodeCodec_proofs.ovf_segs_bytes. Qed.
+Print Assumptions C16_ovf_segs_bytes.
+
+Theorem C16_manifest_segs_bytes : forall m, seg_bytes (manifest_segs m) = encode_manifest m.
+Proof. exact NodeCodec_proofs.manifest_segs_bytes. Qed.
+Print Assumptions C16_manifest_segs_bytes.
+
+Theorem C16_compare_segs_sound : forall l real,
+    fst (fst (compare_segs l real)) = [] ->
+    agree (seg_mask l) (seg_bytes l) real /\ length real = 4096%nat.
+Proof. exact NodeCodec_proofs.compare_segs_sound. Qed.
+Print Assumptions C16_compare_segs_sound.
